@@ -570,11 +570,7 @@ Lemma radix_literal_exact_all :
   (forall r c rest, radix_ok r -> is_rdigit r c = false ->
      number_token (48 :: radix_char r :: c :: rest) = TInt 0 (radix_char r :: c :: rest)).
 Proof.
-  repeat split.
-  - exact radix_literal.
-  - exact decimal_literal.
-  - exact number_chars_digits.
-  - exact radix_fallback.
+  exact (conj radix_literal (conj decimal_literal (conj number_chars_digits radix_fallback))).
 Qed.
 
 Lemma char_code_literal_exact_all :
@@ -589,15 +585,8 @@ Lemma char_code_literal_exact_all :
   (forall d ds rest, rdigits 8 (d :: ds) -> valid_scalar (pos_value 8 (d :: ds)) = true ->
      number_token (48 :: 39 :: 92 :: (d :: ds) ++ 92 :: rest) = TInt (pos_value 8 (d :: ds)) rest).
 Proof.
-  repeat split.
-  - exact char_code_plain.
-  - exact char_code_quote.
-  - exact char_code_dquote.
-  - exact char_code_bquote.
-  - exact char_code_meta.
-  - exact char_code_control.
-  - exact char_code_hex.
-  - exact char_code_oct.
+  exact (conj char_code_plain (conj char_code_quote (conj char_code_dquote (conj char_code_bquote
+        (conj char_code_meta (conj char_code_control (conj char_code_hex char_code_oct))))))).
 Qed.
 
 Lemma float_bits_layout :
